@@ -79,6 +79,12 @@ def _impl(tier, seed, search):
             L.close('Twist3.ad-form', r[0], np.block([[sk(w_), sk(v_)], [np.zeros((3, 3)), sk(w_)]]), 1e-12, float(np.max(np.abs(Ssm))), dict(S=Ssm))
             E = scipy.linalg.expm(r[0])
             L.close('exp(ad S)=Ad(exp S)', E, r[1], 1e-7, max(1.0, float(np.max(np.abs(r[1])))), dict(S=Ssm))
+        # the same identities for degenerate twists: pure translation (w = 0) and rotation through the origin (v = 0)
+        for Sd in (np.r_[g.normal(size=3) * 10.0 ** g.uniform(-2, 2), 0, 0, 0], np.r_[0, 0, 0, inputs.unit_axis(g) * float(g.uniform(0.1, 3.0))]):
+            ok, r = L.noraise('Twist3.Ad(degenerate)', lambda: (Twist3(Sd).ad(), Twist3(Sd).Ad(), Twist3(Sd).SE3().Ad()), dict(S=Sd), 'Twist3.ad / Ad on a degenerate twist')
+            if ok:
+                L.close('exp(ad S)=Ad(exp S)', scipy.linalg.expm(r[0]), r[1], 1e-7, max(1.0, float(np.max(np.abs(r[1]))), float(np.max(np.abs(Sd)))), dict(S=Sd), sig='exp(ad S)=Ad(exp S):degenerate')
+                L.close('Twist3.Ad=SE3.Ad', r[1], r[2], 1e-12, max(1.0, float(np.max(np.abs(r[2])))), dict(S=Sd), sig='exp(ad S)=Ad(exp S):degenerate')
         # velocity Jacobian
         R1 = T1[:3, :3]; Z = np.zeros((3, 3))
         L.close('tr2jac', b.tr2jac(T1), np.block([[R1.T, Z], [Z, R1.T]]), 1e-12, 1.0, dict(T=T1))
